@@ -212,6 +212,50 @@ def get_gemini_obligations():
     return obs
 
 
+def copy_obligations():
+    """`gemini given as ... instance`: the objective a model trains with after the model object has been copied the way scikit-learn
+    copies estimators (sklearn.base.clone: GridSearchCV, cross_validate, every meta-estimator), deep-copied or pickled is the one
+    its parameters described -- same class, every constructor option equal.  All GEMINI classes, every option off its default."""
+    import copy
+    import inspect
+    import pickle
+    from sklearn.base import clone
+    from gemclus import gemini as G_
+    from gemclus.linear import LinearModel
+    from gemclus.tree import Douglas
+    obs = []
+    off_default = {"ovo": True, "epsilon": 1e-7, "kernel": "rbf", "kernel_params": {"gamma": 0.37}, "metric": "euclidean",
+                   "metric_params": {"squared": True}}
+    for cname in ("KLGEMINI", "TVGEMINI", "HellingerGEMINI", "ChiSquareGEMINI", "MMDGEMINI", "WassersteinGEMINI", "MI"):
+        cls = getattr(G_, cname)
+        params = [p_ for p_ in inspect.signature(cls.__init__).parameters if p_ != "self"]
+        kw = {p_: off_default[p_] for p_ in params if p_ in off_default}
+        fn = f"gemclus.gemini.{cname}"
+        for host in (LinearModel, Douglas):
+            bad = None
+            name = f"{host.__name__}(gemini={cname} instance): after clone / deepcopy / pickle the model's objective has the same class and the same options"
+            try:
+                g = cls(**kw)
+                opts = {k_: copy.deepcopy(v_) for k_, v_ in vars(g).items()}
+                m = host(gemini=g)
+            except Exception as e:
+                obs.append(Ob(name, UNDECIDED, "native-history", "P", {"why": "the probe model could not be built: " + repr(e)[:200]}, fn=fn))
+                continue
+            try:
+                for how, cp in (("sklearn.base.clone", clone), ("copy.deepcopy", copy.deepcopy), ("pickle round trip", lambda o: pickle.loads(pickle.dumps(o)))):
+                    g2 = cp(m).get_gemini()
+                    diff = {k_: (repr(v_), repr(getattr(g2, k_, "<missing>"))) for k_, v_ in opts.items() if getattr(g2, k_, "<missing>") != v_}
+                    if type(g2) is not type(g) or diff:
+                        bad = {"copied by": how, "model": f"{host.__name__}(gemini={cname}(**{kw}))", "class after copy": type(g2).__name__,
+                               "options that changed (before, after)": diff}
+                        break
+            except Exception as e:
+                bad = {"exception": repr(e)[:300]}
+            obs.append(Ob(name,
+                          PROVED if bad is None else REFUTED, "native-history", "P", dict(bad or {}, replayed=bad is not None), fn=fn))
+    return obs
+
+
 def domain_linkage():
     """TB: every kernel/metric value accepted by an estimator's own validation builds a GEMINI (the constructor's
     precondition follows from the validated domain); fixed-GEMINI estimators resolve to the GEMINI they name."""
